@@ -64,11 +64,18 @@ TCompact == IsEvent("Compact") /\ LET e == Log[l]
              /\ ValOK(e.r, v)
              /\ Chk("ordered-requested", e.ordered => e.r.ordered)
              /\ cv' = (e.dst :> v) @@ cv /\ UNCHANGED <<obj, blob>>
+\* a compact sketch read from an image whose abstract content the driver chose (every packing width of the compressed form)
+TInject == IsEvent("Inject") /\ LET e == Log[l]
+                                    v == [thetaH |-> e.thetaH, ent |-> ToSet(e.ent), empty |-> e.empty, maxH |-> e.maxH, ordered |-> e.r.ordered] IN
+             /\ Chk("C09:injected-image-read", e.r.ent = e.ent)
+             /\ ValOK(e.r, v)
+             /\ cv' = (e.dst :> v) @@ cv /\ UNCHANGED <<obj, blob>>
 TSer == IsEvent("Ser") /\ LET e == Log[l] IN
              /\ Chk("C09:bytes=stream", e.img = e.simg)
              /\ Chk("C09:advertised-size", e.size = e.advertised)
              /\ Chk("C09:header", e.total = e.hdr + e.size)
              /\ Chk("C09:max-size", e.size <= e.maxsize)
+             /\ Chk("C09:entry-bits", Has(e, "w") => e.entryBits = e.w)
              \* equal values serialize to equal images in the same variant (same entry order: same object lineage)
              /\ blob' = (e.blob :> [val |-> cv[e.src], img |-> e.img, size |-> e.size]) @@ blob
              /\ UNCHANGED <<obj, cv>>
@@ -85,6 +92,6 @@ TWrap == IsEvent("Wrap") /\ LET e == Log[l]  b == blob[e.blob] IN
 
 TInit == obj = <<>> /\ l = 1 /\ cv = <<>> /\ blob = <<>>
 TNext == TBegin \/ TNew \/ TUpdate \/ TUpdateIgnored \/ TTrim \/ TReset \/ TObs \/ TCopy \/ TCompact
-         \/ TSer \/ TDeser \/ TWrap
+         \/ TSer \/ TDeser \/ TWrap \/ TInject
 TSpec == TInit /\ [][TNext]_tvars
 ====
